@@ -40,6 +40,7 @@ fn spec(kind: u8) -> WorldSpec {
     cardinals: 1,
     no_rune_index: false,
     no_inscription_index: kind == 2,
+    sweepable_foreign: false,
   }
 }
 
@@ -138,12 +139,18 @@ struct Case {
   regtest: bool,
   pay: u64,
   ins: Vec<(bool, usize, Sig)>, // (wallet?, index, pre)
+  /// the node's simulaterawtransaction answer is forced to this value (guarded mockcore hook
+  /// VERIF_SIMULATE_OVERRIDE / VERIF_SIMULATE_BALANCE_CHANGE)
+  forced: Option<i64>,
 }
 
 /// the node's `simulaterawtransaction` answer for this case (mock node: sum over wallet
 /// addresses on mainnet; on regtest the mock compares mainnet-encoded addresses and
 /// therefore always answers 0)
 fn node_balance_change(c: &Case) -> i64 {
+  if let Some(v) = c.forced {
+    return v;
+  }
   if c.regtest {
     return 0;
   }
@@ -201,6 +208,9 @@ fn encode(c: &Case) -> Line {
     l.push(*wallet);
     l.push(*idx);
   }
+  if c.forced.is_some() {
+    l.push(1u8);
+  }
   l.done()
 }
 
@@ -218,7 +228,7 @@ fn decode(line: &Line) -> Case {
   let dry = c.bool();
   let amount = c.u64();
   let want = c.u64();
-  let _bc = c.z();
+  let bc = c.z().i64();
   let n = c.usize();
   let mut pres = Vec::new();
   for _ in 0..n {
@@ -251,7 +261,8 @@ fn decode(line: &Line) -> Case {
     let idx = c.usize();
     ins.push((wallet, idx, pre));
   }
-  Case { dry, amount, want, kind, regtest, pay, ins }
+  let forced = if !c.at_end() && c.bool() { Some(bc) } else { None };
+  Case { dry, amount, want, kind, regtest, pay, ins, forced }
 }
 
 const PRE_KINDS: [Sig; 7] = [
@@ -286,11 +297,12 @@ pub fn gen(rng: &mut Rng, tier: &str) -> Vec<Line> {
       regtest,
       pay: value_of(seller) + delta,
       ins,
+      forced: None,
     };
     // ... then up to two mutations
     let muts = *rng.pick(&[0u64, 1, 1, 1, 2]);
     for _ in 0..muts {
-      match rng.below(12) {
+      match rng.below(14) {
         0 => c.amount += 1 + rng.below(3),
         1 => c.pay = c.pay.saturating_sub(1 + rng.below(2000)),
         2 => c.want = rng.below(6),
@@ -330,12 +342,33 @@ pub fn gen(rng: &mut Rng, tier: &str) -> Vec<Line> {
           let spent: u64 = c.ins.iter().filter(|i| i.0).map(|i| value_of(i.1)).sum();
           c.pay = spent + c.amount;
         }
-        _ => {
+        11 => {
           if let Some(i) = c.ins.iter_mut().find(|i| !i.0) {
             i.2 = Sig::Witness(2)
           }
         }
+        12 => {
+          // the offer pays MORE than the named amount
+          let spent: u64 = c.ins.iter().filter(|i| i.0).map(|i| value_of(i.1)).sum();
+          c.pay = spent + c.amount + *rng.pick(&[1u64, 2, 1000, 100_000_000]);
+        }
+        _ => {
+          // the offer COSTS the wallet the named amount
+          let spent: u64 = c.ins.iter().filter(|i| i.0).map(|i| value_of(i.1)).sum();
+          c.amount = *rng.pick(&[1u64, 546, 5_000]);
+          c.pay = spent.saturating_sub(c.amount).max(1);
+        }
       }
+    }
+    // a third of the cases: the node's simulated balance change is set directly
+    if i % 3 == 1 {
+      let a = *rng.pick(&[0u64, 1, 10_000, 100_000_000, 2_100_000_000_000_000]);
+      let big: i64 = 2_100_000_000_000_000;
+      let huge: i64 = 9_000_000_000_000_000;
+      let ai = a as i64;
+      let bc = *rng.pick(&[ai, ai, ai, -ai, -ai, ai + 1, ai - 1, 0, 2 * ai, big, -big, huge, -huge]);
+      c.amount = a;
+      c.forced = Some(bc);
     }
     if c.ins.is_empty() {
       c.ins.push((false, 0, Sig::Witness(1)));
@@ -430,7 +463,10 @@ pub fn run(line: &Line) -> Outcome {
       if c.dry {
         args.push("--dry-run");
       }
+      mockcore::VERIF_SIMULATE_BALANCE_CHANGE.store(c.forced.unwrap_or(0), std::sync::atomic::Ordering::SeqCst);
+      mockcore::VERIF_SIMULATE_OVERRIDE.store(c.forced.is_some(), std::sync::atomic::Ordering::SeqCst);
       let r = w.cli(&args);
+      mockcore::VERIF_SIMULATE_OVERRIDE.store(false, std::sync::atomic::Ordering::SeqCst);
       let broadcast = w.mempool();
       w.clear_mempool();
 
@@ -450,10 +486,11 @@ pub fn run(line: &Line) -> Outcome {
         if !w.spec.outputs[j].runes.is_empty() {
           return Err("seller output holds runes".into());
         }
-        if !c.regtest {
-          let spent: u64 = value_of(j);
-          if c.pay as i64 - spent as i64 != c.amount as i64 {
-            return Err(format!("balance change {} != amount {}", c.pay as i64 - spent as i64, c.amount));
+        if !c.regtest || c.forced.is_some() {
+          // what the node reports: forced, or (mainnet) payment to the wallet minus the spent output
+          let bc = c.forced.unwrap_or(c.pay as i64 - value_of(j) as i64);
+          if i128::from(bc) != i128::from(c.amount) {
+            return Err(format!("the wallet's balance changes by {bc}, the named amount is {}", c.amount));
           }
         }
         for (k, i) in c.ins.iter().enumerate() {
